@@ -23,6 +23,7 @@ Definition p_fail_code (c : fail_code) : N :=
   | FStepLimit => 0 | FNoCategory => 1 | FChildFailed => 2 | FMissingFlow => 3 | FParentMissingFlow => 3
   | FMaxResumes => 4 | FNoLocation => 5 | FNoWait => 6 | FRouteError => 7 | FParentNodeGone => 8
   | FEnterMissingFlow => 10 | FEnterFlowType => 11
+  | FVoiceNoCall => 12
   end.
 
 Definition p_ekind (k : ekind) : list N :=
